@@ -504,6 +504,9 @@ def main(tier, seed):
     run.assume('pyvc proxies/rewrites model Python semantics (validated by differential runs against CPython, not proved)',
                'z3 soundness', 'meeting year >= 2 (prior_date builds a date in year-1)',
                'datetime.date comparison is lexicographic on (y,m,d); date(y,m,d) raises ValueError iff not a Gregorian date of years 1..9999')
+    from pyvc.frames import frame_obligations
+    m_ = _mod()
+    frame_obligations(run, [m_.calc_uka_age_group, m_.rule107_agegroups_trackandfield, m_.rule507_agegroups_crosscountry, m_.prior_date])
     J = jobs(tier)
     results = report.pool_map(_work, J)
 
